@@ -149,7 +149,20 @@ def expected_sets(tree, hists, pats):
 
 def oracle_c03(rep, scn, replay, obs, root, report):
     for i, (st, o) in enumerate(zip(scn["steps"], obs)):
-        if st["op"] not in ("verify", "diff", "create") or st.get("sf"):
+        if st["op"] not in ("verify", "diff", "create"):
+            continue
+        if st.get("sf"):
+            # named files / folders: an altered file at or below a name must be reported (exit 11, path named)
+            hists = _gens_below(replay.hists[i], "")
+            if st.get("root") or st.get("dr") or not hists.get("") or any(r.get("prev") for gens in hists.values() for g in gens for r in g["records"]):
+                continue
+            altered, _, _ = expected_sets(replay.trees[i], hists, effective_patterns(hists[""], st))
+            hit = sorted(a for a in altered if any(a == x or a.startswith(x.rstrip("/") + "/") for x in st["sf"]))
+            _count(rep, "c03.create-sf." + ("altered" if hit else "unaltered"))
+            if hit and o["outcome"] != ["exit", 11]:
+                report("create-sf-exit-altered", i, ["exit", 11], o["outcome"], f"create -sf {st['sf']} with altered files {hit} below the named paths must exit 11")
+            elif hit and not set(hit) <= set(o["mismatch"]):
+                report("create-sf-mismatch-not-named", i, hit, o["mismatch"], "an altered file below a path named with -sf is not named in the output")
             continue
         if st.get("dr"):
             # rename detection may take entries off the missing list (C17); what it may never do is end without an exit code
